@@ -221,15 +221,17 @@ class JSONCollection(SyncedCollection):
     def filename(self, value):
         # When setting the filename we must also remap the locks.
         with self._thread_lock:
-            self._filename = value
-
             # Other objects may still be bound to the old file (or already to
             # the new one), so the lock of the old file is kept and a lock for
-            # the new file is only created if there is none yet.
+            # the new file is only created if there is none yet. The new lock
+            # must exist before the filename changes, because other threads
+            # using this object look the lock up by filename at any time.
             if self._supports_threading:
                 with self._cls_lock:
-                    if self._lock_id not in self._locks:
-                        self._locks[self._lock_id] = RLock()
+                    if value not in self._locks:
+                        self._locks[value] = RLock()
+
+            self._filename = value
 
     @property
     def _lock_id(self):
